@@ -248,15 +248,19 @@ impl<K: CacheKey + 'static> DiskCache<K> {
                             }
                         }
                     }
+
+                    // The counters change together with the index, under its lock
+                    // (a concurrent clear() resets them to zero).
+                    if removed_count > 0 {
+                        entry_count.fetch_sub(removed_count, Ordering::Relaxed);
+                        disk_usage.fetch_sub(freed_bytes, Ordering::Relaxed);
+                    }
                 }
 
                 #[cfg(feature = "verif-hooks")]
                 crate::verif_hooks::sched_point("disk.cleanup.swept");
 
                 if removed_count > 0 {
-                    entry_count.fetch_sub(removed_count, Ordering::Relaxed);
-                    disk_usage.fetch_sub(freed_bytes, Ordering::Relaxed);
-
                     // Update metrics
                     for _ in 0..removed_count {
                         metrics.record_eviction((freed_bytes / removed_count as u64) as usize);
